@@ -19,7 +19,11 @@ a[1:3]|a[::-1]|a[:-2]|a[4:]|m[:, 0]|m[1]|m[1:3, 1]|a[-1]|a.at[1].set(9.0)|a.at[j
 jax.lax.dynamic_slice(jnp.array(m), (1, 1), (2, 2))|jax.lax.dynamic_slice(jnp.array(m), (3, 2), (2, 2))|jnp.minimum(a, b)|jnp.maximum(a, 0)|jnp.abs(a)|a.sum()|a.max()|a.min()|m.mean()|m.sum(axis=1)|jnp.size(m)|m.size
 jnp.amax(a)|jnp.negative(a)|jnp.subtract(a, b)|jnp.multiply(a, b)|jnp.add(a, b)|jnp.sum(a * w)|jnp.max(jnp.abs(a - b))|(a - b).max() - (a - b).min()|jnp.cumprod(jnp.array(iv))|np.r_[iv, 1]|np.cumprod(iv[:0:-1])[::-1]
 jnp.any(m != 0.0, axis=1).sum()|jnp.zeros_like(a)|jnp.asarray(iv) * 2|-jnp.asarray(a)|jnp.asarray(a) ** 2|jnp.asarray(iv) // 2|jnp.asarray(iv) % 3|jnp.where(jnp.asarray(a) >= 3.25, 1, 0).sum()""".replace("\n", "|").split("|")
-cases = [dict(expr=e.strip(), inputs=IN) for e in EXPRS if e.strip()]
+# the interpreter's own Python semantics (operators, builtins, comprehensions, conditional expressions, short-circuit values, integer division and modulo of negatives)
+PYEXPRS = """-(-7 // 2)|7 // -2|-7 % 3|7 % -3|(-7) // 2|int(3.7)|int(-3.7)|min(3, 1, 2)|max([1, 5, 2])|sum([1, 2, 3])|len([1, 2])|list(range(2, 10, 3))|list(range(5, 0, -2))|[i for i in range(6) if i % 2]
+tuple(x * 2 for x in range(3))|any(x > 2 for x in [1, 2, 3])|all(x > 2 for x in [1, 2, 3])|3 if 0 else 4|abs(-3)|2 ** 10|1 < 2 < 3|1 < 3 < 2|0 or 5|0 and 5|2 and 7|None or 5|not []|not [0]|(7 + 3 - 1) // 3|max(64, 5)|min(1024, max(64, 17))
+sum(x * y for x, y in zip([1, 2, 3], [4, 5, 6]))|[a + b for a, b in zip([1, 2], [3, 4])]|list(reversed([1, 2, 3]))|sorted([3, 1, 2])|[1, 2, 3][::-1]|[1, 2, 3, 4][1:3]|(1, 2) + (3,)|len(range(3, 11, 2))|5 in [1, 5]|5 not in (1, 2)|bool(0.0)|float(3)|10 / 4|7.5 // 2|-7.5 // 2|2 * 3 ** 2|-2 ** 2|divmod(7, -2)[0]|round(2.675, 2) > 2.6|1e-3 * (1 - 0.9) / 0.9""".replace("\n", "|").split("|")
+cases = [dict(expr=e.strip(), inputs=IN) for e in EXPRS if e.strip()] + [dict(expr=e.strip(), inputs={}) for e in PYEXPRS if e.strip()]
 def tolist(v):
     if isinstance(v, (tuple, list)): return [tolist(x) for x in v]
     v = np.asarray(v)
@@ -28,7 +32,7 @@ def tolist(v):
 real = {}
 genv = {"jnp": jnp, "np": np, "jax": jax}
 for c in cases:
-    loc = {k: (jnp.array(v) if k not in ("iv", "idx") else (np.array(v) if k == "iv" else v)) for k, v in IN.items()}
+    loc = {k: (jnp.array(v) if k not in ("iv", "idx") else (np.array(v) if k == "iv" else v)) for k, v in c["inputs"].items()}
     try: real[c["expr"]] = {"value": tolist(eval(c["expr"], genv, loc))}
     except Exception as ex: real[c["expr"]] = {"error": f"{type(ex).__name__}: {str(ex)[:160]}"}
 scratch = os.environ.get("VERIF_SCRATCH", "/tmp"); fc, fo = os.path.join(scratch, "xm_cases.json"), os.path.join(scratch, "xm_out.json")
